@@ -68,7 +68,7 @@ func genC09(r *Rng, tier string, idx int) *Plan {
 			par[i], par[j] = par[j], par[i]
 		}
 		if mode == "faulty-logout" {
-			p.Faults = append(p.Faults, Fault{Site: "store.RemoveSession", Nth: 1, Kind: []string{"err-before", "err-after"}[r.Intn(2)]})
+			p.Faults = append(p.Faults, Fault{Site: "store.RemoveSession", Nth: 1, Kind: []string{"err-before", "err-after", "redis-down", "redis-down"}[r.Intn(4)]})
 		}
 		p.Ops = append(p.Ops, Op{ID: nid(), Kind: "par", Par: par})
 		m := r.Range(1, 3)
